@@ -19,6 +19,10 @@ import time
 import traceback
 from pathlib import Path
 
+# exact rational results of the reference interpreter can have tens of thousands of digits
+if hasattr(sys, "set_int_max_str_digits"):
+    sys.set_int_max_str_digits(0)
+
 ROOT = Path(__file__).resolve().parent.parent
 LEAN = ROOT / "lean"
 REPO = Path(os.environ.get("EXO_REPO", "/repo"))
